@@ -201,6 +201,23 @@ def handle (line : String) : String :=
         | .link l => s!"link:{l}" | .fee f => s!"fee:{f}" | .rdhSeen n => s!"seen:{n}"
         | .rdhFiltered n => s!"filtered:{n}" | .payloadSize n => s!"payload:{n}"
       s!"n={r.packets.length} " ++ joinSp pk ++ " | " ++ joinSp ms
+  | "view" :: rest =>
+    let kv := parseKv rest
+    match parseHex (kvGet kv "data") with
+    | none => "bad-op"
+    | some bs =>
+      let kind := kvGet kv "kind" "rdh"
+      let cfg : ScanCfg := { filter := parseFilter (kvGet kv "filter"), skipPayload := kind == "rdh", src := .file }
+      let pk := (scanAll cfg bs).packets
+      if kind == "rdh" then
+        joinSp ((rdhViewRows pk).map fun r => s!"{r.offset}:{r.ver}:{r.hsize}:{r.fee}:{r.sys}:{r.offNext}:{r.link}:{r.pkt}:{r.bc}:{r.orbit}:{r.df}:{r.trig}:{r.pages}:{r.stop}:{r.det}")
+      else
+        match frameViewRows (kind == "data") pk with
+        | .error e => s!"PANIC {e.name}"
+        | .ok (rows, complete) =>
+          (if complete then "" else "INCOMPLETE ") ++ joinSp (rows.map fun r => match r with
+            | .rdh h => s!"R:{h.offset}:{h.ver}:{h.stop}:{h.layer}:{h.stave}:{h.trig}:{h.link}:{h.laneStatus}:{h.orbit}:{h.bc}"
+            | .word w => s!"W:{w.offset}:{reprStr w.kind |>.replace "FastPasta.ViewKind." ""}:{toHex w.bytes}:{"|".intercalate w.attrs |>.replace " " "_"}")
   | "collect" :: rest =>
     let mute := rest.head? == some "mute=1"
     let toks := rest.drop 1
